@@ -200,12 +200,20 @@ static inline size_t sba_bin_pages(const struct sba_bin *bin) {
  *   g_al_* / g_fr_*   : record of the calls to s_sba_alloc / s_sba_free (block-layer clients: realloc, calloc, forwarders).
  * ===================================================================================================================== */
 #ifdef SBA_BLOCK_LAYER
+#define VT_REALLOC_MOVES_(oldsize, newsize) ((newsize) > (oldsize) || g_vt_moves)
+/* symbolic num * symbolic size: the enforcing calloc units fix one factor each (DESIGN 2) */
+#if defined(SBA_CALLOC_SIZE)
+#    define CALLOC_SBA_CASE __CPROVER_requires(size == SBA_CALLOC_SIZE)
+#elif defined(SBA_CALLOC_NUM)
+#    define CALLOC_SBA_CASE __CPROVER_requires(num == SBA_CALLOC_NUM)
+#else
+#    define CALLOC_SBA_CASE
+#endif
 struct aws_mutex *g_lk_held;
 size_t g_lk_locks, g_lk_unlocks;
 size_t g_afb_calls, g_ftb_calls;
 struct sba_bin *g_afb_bin, *g_ftb_bin;
 void *g_ftb_addr;
-bool g_ftb_retires; /* arbitrary: whether s_sba_free_to_bin hands the page back to the OS */
 size_t g_pacq_calls, g_pacq_size, g_prel_calls;
 void *g_prel_last;
 size_t g_al_calls, g_al_size, g_fr_calls;
@@ -282,13 +290,12 @@ __CPROVER_assigns(g_afb_calls, g_afb_bin, SBA_BIN_FRAME(bin))
 __CPROVER_ensures(__CPROVER_is_fresh(RET, bin->size))
 __CPROVER_ensures(g_afb_calls == OLD(g_afb_calls) + 1 && g_afb_bin == bin)
 ;
-#define SBA_PAGE_OF(addr) ((uint8_t *)(addr) - (__CPROVER_POINTER_OFFSET(addr) & (SBA_PAGE - 1)))
+/* Frame: only the call record.  The bin's private fields (cursor, lists) and the page header that the real function
+ * updates are the representation layer's business (free_step_*); the only caller, s_sba_free, unlocks and returns without
+ * reading them.  (Listing them costs a write through a pointer that comes out of a page header: minutes / out of memory.) */
 static void s_sba_free_to_bin(struct sba_bin *bin, void *addr)
-__CPROVER_requires(__CPROVER_rw_ok(bin, sizeof(*bin)))
-__CPROVER_requires(addr != NULL && g_lk_held == &bin->mutex)
-__CPROVER_requires(((struct page_header *)SBA_PAGE_OF(addr))->bin == bin) /* the source's AWS_ASSERT(page->bin == bin) */
-__CPROVER_assigns(g_ftb_calls, g_ftb_bin, g_ftb_addr, SBA_BIN_FRAME(bin), __CPROVER_object_upto(SBA_PAGE_OF(addr), sizeof(struct page_header)))
-__CPROVER_frees(g_ftb_retires : SBA_PAGE_OF(addr))
+__CPROVER_requires(bin != NULL && addr != NULL && g_lk_held == &bin->mutex)
+__CPROVER_assigns(g_ftb_calls, g_ftb_bin, g_ftb_addr)
 __CPROVER_ensures(g_ftb_calls == OLD(g_ftb_calls) + 1 && g_ftb_bin == bin && g_ftb_addr == addr)
 ;
 
@@ -327,10 +334,8 @@ __CPROVER_requires(g_case == 1 ==> g_pgsz <= SBA_PAGE && g_pgsz >= SBA_PAGE && _
                                    g_bi < AWS_SBA_BIN_COUNT && SBA_PG_HDR->bin == &sba->bins[g_bi])
 __CPROVER_requires(g_case == 2 ==> g_lsz > 512 && __CPROVER_is_fresh(addr, g_lsz) &&
                                    !(((struct page_header *)addr)->tag == AWS_SBA_TAG_VALUE && ((struct page_header *)addr)->tag2 == AWS_SBA_TAG_VALUE))
-__CPROVER_assigns(g_case == 1 : g_lk_held, g_lk_locks, g_lk_unlocks, g_ftb_calls, g_ftb_bin, g_ftb_addr, SBA_BIN_FRAME(&sba->bins[g_bi]),
-                  __CPROVER_object_upto(g_pg, sizeof(struct page_header)))
+__CPROVER_assigns(g_case == 1 : g_lk_held, g_lk_locks, g_lk_unlocks, g_ftb_calls, g_ftb_bin, g_ftb_addr)
 __CPROVER_assigns(g_case == 2 : g_prel_calls, g_prel_last)
-__CPROVER_frees(g_case == 1 && g_ftb_retires : g_pg)
 __CPROVER_frees(g_case == 2 : addr)
 __CPROVER_ensures(g_case == 1 ==> g_ftb_calls == OLD(g_ftb_calls) + 1 && g_ftb_bin == &sba->bins[g_bi] && g_ftb_addr == addr &&
                                   g_lk_locks == OLD(g_lk_locks) + 1 && g_lk_unlocks == OLD(g_lk_unlocks) + 1 && g_prel_calls == OLD(g_prel_calls))
@@ -349,6 +354,88 @@ __CPROVER_assigns(g_fr_calls, g_fr_last)
 __CPROVER_frees(addr)
 __CPROVER_ensures(g_fr_calls == OLD(g_fr_calls) + 1 && g_fr_last == addr)
 __CPROVER_ensures(SBA_KEPT(sba))
+;
+
+/* ---- parent realloc with a call record; same promises as aws_mem_realloc in contracts/allocator.h (client flavour):
+ *      never fails, either the same block (only when it does not have to grow) or a fresh block with the old contents ---- */
+size_t g_prea_calls;
+int sba_parent_realloc_contract(struct aws_allocator *allocator, void **ptr, size_t oldsize, size_t newsize)
+__CPROVER_requires(allocator != NULL && ptr != NULL && newsize > 0)
+__CPROVER_requires(*ptr == NULL ? oldsize == 0 : __CPROVER_is_freeable(*ptr))
+__CPROVER_requires(g_on ==> (*ptr != NULL && g_k < oldsize ==> g_old == ((const uint8_t *)*ptr)[g_k]))
+__CPROVER_assigns(*ptr, g_prea_calls)
+__CPROVER_frees(VT_REALLOC_MOVES : *ptr)
+__CPROVER_ensures(RET == AWS_OP_SUCCESS && g_prea_calls == OLD(g_prea_calls) + 1)
+__CPROVER_ensures(VT_REALLOC_MOVES || OLD(*ptr) == NULL ==> __CPROVER_is_fresh(*ptr, newsize))
+__CPROVER_ensures(!VT_REALLOC_MOVES && OLD(*ptr) != NULL ==> PEQ(*ptr, OLD(*ptr)))
+__CPROVER_ensures(g_on && OLD(*ptr) != NULL && g_k < oldsize && g_k < newsize ==> ((const uint8_t *)*ptr)[g_k] == g_old)
+;
+
+/* ---- the vtable functions ---- */
+#define SBA_IMPL(a) ((struct small_block_allocator *)(a)->impl)
+#define SBA_VT_REQ(a) __CPROVER_requires(__CPROVER_is_fresh((a), sizeof(*(a)))) SBA_REQ(SBA_IMPL(a))
+#define SBA_NO_ALLOC (g_al_calls == OLD(g_al_calls))
+#define SBA_NO_FREE (g_fr_calls == OLD(g_fr_calls))
+#define SBA_NO_PREALLOC (g_prea_calls == OLD(g_prea_calls))
+
+static void *s_sba_mem_acquire(struct aws_allocator *allocator, size_t size)
+SBA_VT_REQ(allocator)
+__CPROVER_requires(size > 0)
+__CPROVER_assigns(g_al_calls, g_al_size)
+__CPROVER_assigns(size <= 512 : g_lk_held, g_lk_locks, g_lk_unlocks, g_afb_calls, g_afb_bin, SBA_BIN_FRAME(SBA_ALLOC_BIN(SBA_IMPL(allocator), size)))
+__CPROVER_assigns(size > 512 : g_pacq_calls, g_pacq_size)
+__CPROVER_ensures(__CPROVER_is_fresh(RET, size))
+__CPROVER_ensures(g_al_calls == OLD(g_al_calls) + 1 && g_al_size == size)
+;
+static void s_sba_mem_release(struct aws_allocator *allocator, void *ptr)
+SBA_VT_REQ(allocator)
+__CPROVER_requires(ptr == NULL || __CPROVER_is_fresh(ptr, g_lsz))
+__CPROVER_assigns(g_fr_calls, g_fr_last)
+__CPROVER_frees(ptr)
+__CPROVER_ensures(g_fr_calls == OLD(g_fr_calls) + 1 && g_fr_last == ptr)
+;
+
+/* realloc: the four paths of the source, told apart by the sizes alone */
+#define RA_BOTH_LARGE (old_size > 512 && new_size > 512)                       /* parent reallocates */
+#define RA_FREES (!RA_BOTH_LARGE && new_size == 0)                             /* release, NULL */
+#define RA_KEEPS (!RA_BOTH_LARGE && new_size != 0 && old_size > new_size)      /* shrink: same block */
+#define RA_MOVES (!RA_BOTH_LARGE && new_size != 0 && old_size <= new_size)     /* new block, copy, release old */
+static void *s_sba_mem_realloc(struct aws_allocator *allocator, void *old_ptr, size_t old_size, size_t new_size)
+SBA_VT_REQ(allocator)
+__CPROVER_requires(old_ptr == NULL ? old_size == 0 : (old_size > 0 && __CPROVER_is_fresh(old_ptr, old_size)))
+__CPROVER_requires(g_on ==> (old_ptr != NULL && g_k < old_size ==> g_old == ((const uint8_t *)old_ptr)[g_k]))
+__CPROVER_assigns(RA_BOTH_LARGE : g_prea_calls)
+__CPROVER_assigns(RA_FREES || (RA_MOVES && old_ptr != NULL) : g_fr_calls, g_fr_last)
+__CPROVER_assigns(RA_MOVES : g_al_calls, g_al_size)
+__CPROVER_assigns(RA_MOVES && new_size <= 512 : g_lk_held, g_lk_locks, g_lk_unlocks, g_afb_calls, g_afb_bin, SBA_BIN_FRAME(SBA_ALLOC_BIN(SBA_IMPL(allocator), new_size)))
+__CPROVER_assigns(RA_MOVES && new_size > 512 : g_pacq_calls, g_pacq_size)
+__CPROVER_frees((RA_BOTH_LARGE && VT_REALLOC_MOVES_(old_size, new_size)) || RA_FREES || RA_MOVES : old_ptr)
+/* parent path */
+__CPROVER_ensures(RA_BOTH_LARGE && VT_REALLOC_MOVES_(old_size, new_size) ==> __CPROVER_is_fresh(RET, new_size))
+__CPROVER_ensures(RA_BOTH_LARGE && !VT_REALLOC_MOVES_(old_size, new_size) ==> PEQ(RET, old_ptr))
+__CPROVER_ensures(RA_BOTH_LARGE ==> g_prea_calls == OLD(g_prea_calls) + 1 && SBA_NO_ALLOC && SBA_NO_FREE)
+/* release */
+__CPROVER_ensures(RA_FREES ==> RET == NULL && g_fr_calls == OLD(g_fr_calls) + 1 && g_fr_last == old_ptr && SBA_NO_ALLOC && SBA_NO_PREALLOC)
+/* shrink in place: the very same block, nothing allocated, nothing released */
+__CPROVER_ensures(RA_KEEPS ==> PEQ(RET, old_ptr) && SBA_NO_ALLOC && SBA_NO_FREE && SBA_NO_PREALLOC)
+/* move: fresh block of the new size from s_sba_alloc (class or parent by the NEW size), old block released exactly once */
+__CPROVER_ensures(RA_MOVES ==> __CPROVER_is_fresh(RET, new_size) && g_al_calls == OLD(g_al_calls) + 1 && g_al_size == new_size && SBA_NO_PREALLOC &&
+                               (old_ptr != NULL ? g_fr_calls == OLD(g_fr_calls) + 1 && g_fr_last == old_ptr : SBA_NO_FREE))
+/* contents up to the smaller of the two sizes survive on every path that returns a block */
+__CPROVER_ensures(g_on && RET != NULL && old_ptr != NULL && g_k < old_size && g_k < new_size ==> ((const uint8_t *)RET)[g_k] == g_old)
+;
+
+/* calloc: num*size does not overflow and is not 0 - both guaranteed by aws_mem_calloc (allocator.c), the only caller */
+static void *s_sba_mem_calloc(struct aws_allocator *allocator, size_t num, size_t size)
+SBA_VT_REQ(allocator)
+CALLOC_SBA_CASE
+__CPROVER_requires(num > 0 && size > 0 && !__CPROVER_overflow_mult(num, size))
+__CPROVER_assigns(g_al_calls, g_al_size)
+__CPROVER_assigns(num * size <= 512 : g_lk_held, g_lk_locks, g_lk_unlocks, g_afb_calls, g_afb_bin, SBA_BIN_FRAME(SBA_ALLOC_BIN(SBA_IMPL(allocator), num * size)))
+__CPROVER_assigns(num * size > 512 : g_pacq_calls, g_pacq_size)
+__CPROVER_ensures(__CPROVER_is_fresh(RET, num * size))
+__CPROVER_ensures(g_j < num * size ==> ((const uint8_t *)RET)[g_j] == 0)
+__CPROVER_ensures(g_al_calls == OLD(g_al_calls) + 1 && g_al_size == num * size)
 ;
 #endif /* SBA_BLOCK_LAYER */
 
